@@ -4,7 +4,7 @@ from __future__ import annotations
 
 import ast
 
-from ..core import Unrecognised, call_name, calls_in, close_facts, facts, has_fact, parent, site, src, walk_local
+from ..core import single_assignment_value, Unrecognised, call_name, calls_in, close_facts, facts, has_fact, parent, site, src, walk_local
 
 SOLVER = "src/isla/solver.py"
 PRED = "src/isla/isla_predicates.py"
@@ -144,7 +144,151 @@ def rule_l3(ctx):
     ctx.check(len(vt) == 1 and src(vt[0].value) == "var.n_type", "L3-model-value", c, "var_type = var.n_type", site(f), "var_type must be the variable's nonterminal", "own nonterminal")
 
 
+# --- L4: the text parsed for a numeric model value denotes that value (abstract interpretation over the sign of the value) -------------
+# abstract string = list of tokens; a token is ("fin", frozenset of strings) | ("zeros",) | ("abs",)  where ("abs",) = decimal digits of |v| (canonical)
+
+
+class _SignEval:
+    def __init__(self, fn, negative: bool, rule: str, construct: str):
+        self.fn, self.neg, self.rule, self.c = fn, negative, rule, construct
+        # regexes the auxiliary z3 variables are constrained to: z3_solver.add(z3.InRe(<var>, <re>))
+        self.var_re = {}
+        for call in calls_in(fn):
+            if call_name(call) == "z3.InRe" and len(call.args) == 2 and isinstance(call.args[0], ast.Name):
+                self.var_re[call.args[0].id] = call.args[1]
+
+    def bad(self, why):
+        raise Unrecognised(self.rule, self.c, why)
+
+    def cond(self, e: ast.expr) -> bool:
+        t = src(e)
+        if t in ("int_model_value >= 0", "0 <= int_model_value", "not int_model_value < 0"):
+            return not self.neg
+        if t in ("int_model_value < 0", "0 > int_model_value", "not int_model_value >= 0"):
+            return self.neg
+        if isinstance(e, ast.UnaryOp) and isinstance(e.op, ast.Not):
+            return not self.cond(e.operand)
+        if isinstance(e, ast.Name):
+            v = single_assignment_value(self.fn, e.id)
+            if v is not None:
+                return self.cond(v)
+        self.bad(f"condition `{t}` is not a test of the sign of int_model_value")
+
+    def regex(self, e: ast.expr):
+        """finite language or zeros for the z3 regex expression e"""
+        if isinstance(e, ast.Name):
+            v = single_assignment_value(self.fn, e.id)
+            if v is None:
+                self.bad(f"regex {e.id} not bound once")
+            return self.regex(v)
+        if isinstance(e, ast.Call):
+            n = call_name(e)
+            if n == "z3.Re" and len(e.args) == 1:
+                toks = self.string(e.args[0])
+                if len(toks) == 1 and toks[0][0] == "fin":
+                    return toks[0]
+                self.bad(f"z3.Re argument {src(e.args[0])} not a literal")
+            if n == "z3.Option" and len(e.args) == 1:
+                inner = self.regex(e.args[0])
+                if inner[0] == "fin":
+                    return ("fin", frozenset(inner[1] | {""}))
+            if n == "z3.Star" and len(e.args) == 1:
+                inner = self.regex(e.args[0])
+                if inner == ("fin", frozenset({"0"})):
+                    return ("zeros",)
+        self.bad(f"regex {src(e)[:60]} not understood")
+
+    def string(self, e: ast.expr):
+        if isinstance(e, ast.Constant) and isinstance(e.value, str):
+            return [("fin", frozenset({e.value}))]
+        if isinstance(e, ast.IfExp):
+            return self.string(e.body if self.cond(e.test) else e.orelse)
+        if isinstance(e, ast.BinOp) and isinstance(e.op, ast.Add):
+            return self.string(e.left) + self.string(e.right)
+        if isinstance(e, ast.Name):
+            if e.id == "str_model_value":
+                # decimal rendering of the model value (int(str_model_value) succeeded): canonical digits, '-' first when negative
+                return ([("fin", frozenset({"-"}))] if self.neg else []) + [("abs",)]
+            if e.id in self.var_re:
+                return [self.regex(self.var_re[e.id])]
+            v = single_assignment_value(self.fn, e.id)
+            if v is not None:
+                return self.string(v)
+            self.bad(f"name {e.id} not resolved")
+        if isinstance(e, ast.Call):
+            n = call_name(e)
+            if n == "z3.StringVal" and len(e.args) == 1:
+                return self.string(e.args[0])
+            if n == "z3.Concat":
+                out = []
+                for a in e.args:
+                    out += self.string(a)
+                return out
+            if n == "str" and len(e.args) == 1:
+                t = src(e.args[0])
+                if t == "int_model_value":
+                    return ([("fin", frozenset({"-"}))] if self.neg else []) + [("abs",)]
+                if t == "-int_model_value":
+                    # digits of -v: |v| when v is negative; for v >= 0 this is '-'+|v| (or '0')
+                    return [("abs",)] if self.neg else [("fin", frozenset({"-"})), ("abs",)]
+                if t == "abs(int_model_value)":
+                    return [("abs",)]
+            # z3_solver.model()[<var>].as_string()
+            if isinstance(e.func, ast.Attribute) and e.func.attr == "as_string" and isinstance(e.func.value, ast.Subscript) and isinstance(e.func.value.slice, ast.Name):
+                vn = e.func.value.slice.id
+                if vn in self.var_re:
+                    return [self.regex(self.var_re[vn])]
+        self.bad(f"string expression `{src(e)[:70]}` not understood")
+
+
+def _denotes_value(tokens, negative: bool):
+    """does every string of the abstract text denote v?  shape: <finite prefix language> zeros* abs; prefix strings must be [+]?0* (v >= 0) or -0* (v < 0)"""
+    import itertools
+    import re as _re
+
+    i = 0
+    prefix = [""]
+    while i < len(tokens) and tokens[i][0] in ("fin", "zeros"):
+        if tokens[i][0] == "fin":
+            prefix = [a + b for a in prefix for b in sorted(tokens[i][1])]
+        else:
+            prefix = [a + "0" for a in prefix] + prefix  # representative: zero or one padding zero
+        i += 1
+    if i != len(tokens) - 1 or tokens[i] != ("abs",):
+        return False, "text is not <sign><padding><digits of |value|>"
+    pat = _re.compile(r"-0*\Z" if negative else r"\+?0*\Z")
+    badp = [x for x in prefix if not pat.match(x)]
+    if badp:
+        return False, f"for a {'negative' if negative else 'non-negative'} value the text may start with {badp[0]!r}"
+    return True, ""
+
+
+def rule_l4(ctx):
+    f = ctx.repo.func(SOLVER, "ISLaSolver.extract_model_value_int_var", "C14.L4")
+    c = f"{SOLVER}:ISLaSolver.extract_model_value_int_var"
+    imv = single_assignment_value(f, "int_model_value")
+    if imv is None or src(imv) != "int(str_model_value)":
+        raise Unrecognised("C14.L4", c, "int_model_value = int(str_model_value) not found")
+    texts = []
+    for call in calls_in(f, include_nested=False):
+        if call_name(call) == "self.parse" and call.args:
+            texts.append(("parsed text", call.args[0]))
+        if call_name(call) == "z3.InRe" and len(call.args) == 2 and isinstance(call.args[0], ast.Call) and call_name(call.args[0]) == "z3.Concat":
+            texts.append(("text tested against the nonterminal's regular expression", call.args[0]))
+    if len(texts) < 3:
+        raise Unrecognised("C14.L4", c, f"only {len(texts)} numeric text constructions found (expected the direct parse, the regex membership test and the padded parse)")
+    for what, e in texts:
+        for neg in (False, True):
+            ev = _SignEval(f, neg, "C14.L4", c)
+            toks = ev.string(e)
+            ok, why = _denotes_value(toks, neg)
+            ctx.check(ok, "L4-numeric-text-denotes-value", c, f"{what} [{'v < 0' if neg else 'v >= 0'}] `{' '.join(src(e).split())[:50]}`", site(e),
+                      f"the {what} does not denote the model value: {why} (a str.to.int solution is then turned into a tree with a different numeric value, e.g. '5' for -5)",
+                      "[+]?0*<digits> for v >= 0, -0*<digits> for v < 0")
+
+
 def run(ctx) -> str:
+    ctx.guarded("L4", lambda: rule_l4(ctx))
     ctx.guarded("L1", lambda: rule_l1(ctx))
     ctx.guarded("L2", lambda: rule_l2(ctx))
     ctx.guarded("L3", lambda: rule_l3(ctx))
